@@ -58,7 +58,7 @@ def c13 (toks : List String) : String :=
   | [op, k, d, s] =>
     match k.toNat?, ofHex d, parseNatList s with
     | some k, some d, some s =>
-      let x := op == "x224_read"
+      let x := op == "x224_read" || op == "x224_read_rdp"
       let rd := if x then X224.read else Tpkt.read
       showReadN (readN rd k ⟨d, s⟩ []) ++ "\t" ++ specReadN x k d []
     | _, _, _ => "bad-case"
